@@ -28,6 +28,7 @@ theorem bind_ok_eq {ε α β : Type} {x : Except ε α} {f : α → Except ε β
 @[simp] theorem R.res_err {α : Type} (e : Err) : (R.err e : R α).res = .error e := rfl
 @[simp] theorem R.res_lift {α : Type} (x : Except Err α) : (R.lift x).res = x := rfl
 @[simp] theorem R.res_tick (n : Nat) : (R.tick n).res = .ok () := rfl
+@[simp] theorem R.res_reparse (n : Nat) : (R.reparse n).res = .ok () := rfl
 @[simp] theorem R.res_wrapHdr {α : Type} (x : R α) : (R.wrapHdr x).res = wrapHdrE x.res := rfl
 
 @[simp] theorem wrapHdrE_ok {α : Type} (a : α) : wrapHdrE (.ok a : Except Err α) = .ok a := rfl
